@@ -648,6 +648,18 @@ class TermMixin:
                 sub = dict(zip(names, targs)) if len(names) == len(targs) else dict(zip(names[-len(targs):], targs)) if targs else {}
                 if f["trait"] and not largs and f["self_ty"] is not None:
                     sub = {}
+                # const generics: `read::<4>(..)`, or a const parameter of the caller passed on (`read::<N>(..)`)
+                allg = [g for g in body.get("generics", []) if not g.startswith("'")]
+                alla = [a for a in (largs or ())]
+                if any(g.startswith("const ") for g in allg) and len(allg) == len(alla):
+                    for g, a in zip(allg, alla):
+                        if not g.startswith("const ") or isinstance(a, int):
+                            continue
+                        m_ = re.match(r"^(-?\d+)(_[iu](8|16|32|64|128|size))?$", str(a))
+                        if m_:
+                            sub[g] = int(m_.group(1))
+                        elif fr is not None and isinstance(fr.sub.get("const " + str(a)), int):
+                            sub[g] = fr.sub["const " + str(a)]
                 return self.inline(st, fr, body, sub, args, site)
         self.unknown_callees[f["resolved"] or f["path"]] += 1
         return self.default_call(st, fr, f, args, site)
